@@ -61,10 +61,72 @@ func execClearsign(vec J, out *Writer) {
 		}
 		return
 	}
+	if vec["k"].(string) == "cs_ops" {
+		execClearsignOps(vec, out)
+		return
+	}
 	if vec["k"].(string) != "cs" {
 		die("clearsign: unknown vector kind %v", vec["k"])
 	}
 	execClearsignOne(vec, out, vec)
+}
+
+// execClearsignOps: several ParagraphReaders alive in one process, opened and polled in the order the vector
+// gives (a drained reader polled again, two readers open at once).  One observation per operation.
+func execClearsignOps(vec J, out *Writer) {
+	docs := [][]byte{}
+	keys := L(vec["keys"])
+	for i, d := range L(vec["docs"]) {
+		text := []byte(S(d))
+		if k := keys[i].(string); k != "" {
+			text = clearSign(key(k), text)
+		}
+		docs = append(docs, text)
+	}
+	readers := map[int]*control.ParagraphReader{}
+	steps := []interface{}{}
+	for _, oj := range L(vec["ops"]) {
+		o := M(oj)
+		r := I(o["r"])
+		obs := J{"kind": "err", "panic": false, "signer": "none", "para": paraToJ(control.Paragraph{})}
+		func() {
+			defer func() {
+				if rec := recover(); rec != nil {
+					obs["panic"] = true
+				}
+			}()
+			switch o["op"].(string) {
+			case "open":
+				var ring *openpgp.EntityList
+				if !o["nil"].(bool) {
+					el := keyring(L(o["ring"]))
+					ring = &el
+				}
+				rd, err := control.NewParagraphReader(bytes.NewReader(docs[I(o["d"])-1]), ring)
+				if err != nil {
+					return
+				}
+				readers[r] = rd
+				obs["kind"] = "opened"
+				obs["signer"] = keyName(rd.Signer())
+			case "next":
+				rd := readers[r]
+				if rd == nil {
+					return
+				}
+				p, err := rd.Next()
+				obs["signer"] = keyName(rd.Signer())
+				if err == io.EOF {
+					obs["kind"] = "eof"
+				} else if err == nil {
+					obs["kind"] = "para"
+					obs["para"] = paraToJ(*p)
+				}
+			}
+		}()
+		steps = append(steps, obs)
+	}
+	out.Put(J{"ev": "cs_ops", "in": vec, "steps": steps})
 }
 
 func execClearsignOne(vec J, out *Writer, echo J) {
